@@ -24,6 +24,8 @@ register(
         "GtModel.C19.concrete_host_no_underscore",
         "GtModel.C19.Witness.format_refused_witness",
         "GtModel.C19.Witness.prefix_format_bypass_witness",
+        "GtModel.C19.Witness.nested_spec_refused_witness",
+        "GtModel.C19.Witness.prefix_nested_spec_witness",
     ],
     streams=["expr"],
     gen=expr_tables.gen,
